@@ -28,7 +28,7 @@ type RaceCase struct {
 
 func runRace(c RaceCase) *ev.Failure {
 	if pre := leaked(2 * time.Second); pre != "" {
-		return ev.Failf("harness-leak-before", "a library goroutine from an earlier case is still alive:\n%s", pre)
+		return ev.Failf("goroutine-leak-after-earlier-case", "a goroutine the library started for a connection of an EARLIER case is still alive (that connection had terminated):\n%s", pre)
 	}
 	mux := diam.NewServeMux()
 	mux.HandleFunc("ALL", func(diam.Conn, *diam.Message) {})
